@@ -14,6 +14,7 @@ import (
 	"errors"
 	"fmt"
 	"io"
+	"slices"
 )
 
 // A keyAgreement implements the client and server side of a TLS 1.0–1.2 key
@@ -295,6 +296,11 @@ func (ka *ecdheKeyAgreement) processServerKeyExchange(config *Config, clientHell
 
 	if _, ok := curveForCurveID(curveID); !ok {
 		return errors.New("tls: server selected unsupported curve")
+	}
+	// [uTLS] the curve must be one the ClientHello offered (a hello without supported_groups
+	// leaves the choice to the server, RFC 8422 Section 4).
+	if len(clientHello.supportedCurves) > 0 && !slices.Contains(clientHello.supportedCurves, curveID) {
+		return errors.New("tls: server selected unoffered curve")
 	}
 
 	key, err := generateECDHEKey(config.rand(), curveID)
